@@ -33,12 +33,16 @@ pub fn sparse_sdp(rng: &mut StdRng, integer: bool, inf_bound: bool) -> Problem {
     let mut id = 1.0;
     let sq2 = std::f64::consts::SQRT_2;
     let mut off = 0;
+    let psd_first_off: usize = cones.iter().take_while(|c| !matches!(c, ConeSpec::Psd(_))).map(|c| c.numel()).sum();
     let mut s0 = vec![0.0; m];
     let mut z0 = vec![0.0; m];
     for c in &cones {
         match c {
             ConeSpec::Psd(d) => {
-                let edges = loop { let e = random_graph(rng, *d); if e.len() < d * (d - 1) / 2 { break e; } };
+                // (with two PSD cones the first one is dense now and then: it stays whole in front of a decomposed one)
+                let dense_first = psd_dims.len() == 2 && off == psd_first_off && rng.gen::<f64>() < 0.3;
+                let edges = if dense_first { (0..*d).flat_map(|i| ((i + 1)..*d).map(move |j| (i, j))).collect::<Vec<_>>() }
+                            else { loop { let e = random_graph(rng, *d); if e.len() < d * (d - 1) / 2 { break e; } } };
                 let mut entries: Vec<(usize, usize)> = (0..*d).map(|i| (i, i)).collect();
                 entries.extend(edges.iter().map(|&(i, j)| if i < j { (i, j) } else { (j, i) }));
                 for &(i, j) in &entries {
